@@ -4,6 +4,6 @@ set -u
 P=$1; ID=$2; TIER=${3:-quick}
 git -C /repo status --short | grep -q . && { echo "/repo not clean"; exit 2; }
 git -C /repo apply "$P" || { echo APPLY-FAILED; exit 2; }
-cd /verif && ./check "$ID" "$TIER" 2>&1 | grep -E "VIOLATION|KNOWN-FINDING|HARNESS|class=" | cut -c1-420 | head -12
+cd /verif && ./check "$ID" "$TIER" 2>&1 | grep -aE "VIOLATION|KNOWN-FINDING|HARNESS|class=" | cut -c1-420 | head -12
 echo "exit=${PIPESTATUS[0]}"
 git -C /repo checkout -q -- . ; git -C /repo status --short | head -3
